@@ -69,7 +69,7 @@ NO_BOOL = [p for p in SIMPLE_PRIMS if p != "bool"]       # element types of vect
 
 COMPATIBLE = ["add_optional_field", "remove_optional_field", "reorder_fields", "add_step", "add_def", "rename_with_alias"]
 PARTIAL = ["add_field", "remove_field", "widen_field", "make_optional", "widen_vector_field", "widen_step", "make_required"]
-FREE = ["retype_field", "add_protocol", "change_enum"]  # valid packages, but not evolution-safe
+FREE = ["retype_field", "add_protocol", "change_enum", "rename_case"]  # valid packages, but not evolution-safe
 
 
 def apply_edit(pkg: M.Package, rng: Rng, kind: str, only=None, only_steps=None):
@@ -305,6 +305,22 @@ def apply_edit(pkg: M.Package, rng: Rng, kind: str, only=None, only_steps=None):
         r.name = new
         pkg.files[_file_of(pkg, r)].append(Alias(old, (), Named(new)))
         return "rename_with_alias %s->%s" % (old, new)
+    if kind == "rename_case":
+        # a type is renamed to a spelling that differs in letter case only (SampleRate -> Samplerate): another name to yardl and
+        # to a case-sensitive file system, the same file name to a case-insensitive comparison
+        cands = [d for d in pkg.defs() if isinstance(d, (Record, Enum)) and not getattr(d, "params", ()) and any(ch.isalpha() for ch in d.name[1:])]
+        if not cands:
+            return None
+        d = rng.choice(cands)
+        idx = [k for k in range(1, len(d.name)) if d.name[k].isalpha()]
+        k = rng.choice(idx)
+        new = d.name[:k] + d.name[k].swapcase() + d.name[k + 1:]
+        if any(x.name == new for x in pkg.defs()):
+            return None
+        old = d.name
+        _rename_refs(pkg, old, new)
+        d.name = new
+        return "rename_case %s->%s" % (old, new)
     if kind == "retype_field" and recs:
         r = rng.choice(recs)
         i = rng.randrange(len(r.fields))
